@@ -6,7 +6,7 @@ ID = "C03"
 COQ_PROOF_TARGETS = ["Props/C03.vo"]
 COQ_MODEL_TARGETS = ["Extract/ExC03.vo"]
 CLAIM_TEXT = ("Theorems (coq/Props/C03.v, no axioms) over the byte-level model of PullParser, StreamingDecoder::decode and the FramedRead loop: "
-              "see PARTIAL for which of the segmentation-independence chain is proved. Correspondence: message sequences (header order, "
+              "C03_main: a stream of well-formed messages (head <= 4096, a start line the start-line parser accepts, UTF-8 head lines) and CR/LF keep-alives is framed into exactly those messages for EVERY list of chunks that concatenates to it (induction over chunks; invariant: the saved offset and Content-Length are a sound summary of the buffer); C03_segmentation_independent; plus totality, extension stability, C03_resume, exact header-name matching. Correspondence: message sequences (header order, "
               "spelling, folding, bodies with CRLFCRLF and header-like text, sizes at the limits) with keep-alive CRLFs, cut at every 1-cut "
               "and 2-cut position for the small corpus, dribbled byte by byte and cut at random, run through the real StreamingDecoder behind "
               "tokio-util's FramedRead and through the extracted model (frame boundaries, errors); the oracle compares every stream frame "
@@ -27,7 +27,7 @@ ASSUMPTIONS = [
 RULE = ("corpus of message sequences x keep-alive placements x segmentations: every 1-cut and every 2-cut position for sequences up to "
         "~220 bytes (exhaustive for that sub-space), 1-byte dribble, seeded random k-cuts for longer ones (bodies up to 65535, heads near "
         "4096); non-trivial = at least one message is framed; distinct = distinct chunk lists")
-PARTIAL = ["C03_main (run_framed chunks = run_framed [concat chunks] for every segmentation, by induction over chunks) is stated in DESIGN.md and not yet assembled; proved so far: totality, extension/prefix stability of the splitter and of a completed head, soundness of the saved (offset, Content-Length) state on every extension (C03_resume), exact header-name matching"]
+PARTIAL = []
 
 CRLF = "\r\n"
 
